@@ -565,6 +565,8 @@ func rebuild(t *Term, args []*Term, pats [][]*Term) *Term {
 		if len(args) == 2 && args[0].Sort == SInt {
 			return cmpInt(t.Op, args[0], args[1])
 		}
+	case "idx":
+		return Idx(args[0], args[1])
 	case "s.arr":
 		return StrArr(args[0])
 	case "s.off":
